@@ -83,7 +83,7 @@ def check_launch(part, o, rows, obj, ap, ft, tele, mf, det):
     c = cond(obj, ap, ft, tele)
     if not tele:
         epl = abcd.EPL(rows)
-        if not math.isfinite(epl) or abs(epl) > 1e7:
+        if abcd.pupil_degenerate(rows):
             part.count('skipped-telecentric-pupil')
             return
         if math.isinf(obj) and ap[0] == 'objectNA':
